@@ -84,5 +84,33 @@ def sh_const(a: f32[8], b: f32[8], c: f32[8]):
         c[j + 4] = 64.0
 
 
-PROCS = [sh_flat, sh_nest, sh_if, sh_seq, sh_deep, sh_alloc, sh_const]
+# ---- calls among labelled siblings (call_eqv, inline, extract_subproc, replace act on a statement in the middle)
+@proc
+def sh_callee(n: size, x: [f32][n]):
+    for q in seq(0, n):
+        x[q] = 70.0
+
+
+@proc
+def sh_calls(n: size, a: f32[n], b: f32[n], c: f32[n], d: f32[n], e: f32[n]):
+    a[0] = 71.0
+    sh_callee(n, b[0:n])
+    c[0] = 72.0
+    for i in seq(0, n):
+        d[i] = 73.0
+        sh_callee(n, e[0:n])
+        if i > 0:
+            d[i] = 74.0
+            a[i] = 75.0
+    b[0] = 76.0
+
+
+def _eqv():
+    from exo.stdlib.scheduling import divide_loop, rename, simplify
+    return {"sh_callee_div": rename(simplify(divide_loop(sh_callee, "q", 2, ["qo", "qi"], tail="cut")), "sh_callee_div")}
+
+
+PROCS = [sh_flat, sh_nest, sh_if, sh_seq, sh_deep, sh_alloc, sh_const, sh_calls]
 CONFIGS = []
+EQV_PROCS = _eqv()
+SUBPROCS = {"sh_callee": sh_callee}
